@@ -528,11 +528,15 @@ func c33PreviewKnowsPlan(p *an.Prog, r *an.R) {
 		var calls []*ssa.Call
 		an.Instrs(sf, func(b *ssa.BasicBlock, in ssa.Instruction) {
 			if c, ok := in.(*ssa.Call); ok {
-				switch an.StaticCallee(c) {
-				case plan:
+				callee := an.StaticCallee(c)
+				switch {
+				case callee == nil:
+				case callee == plan:
 					planVals = append(planVals, c)
-				case idx:
+				case callee == idx:
 					calls = append(calls, c)
+				case callee.Pkg() == pk.Types && strings.Contains(callee.Type().(*types.Signature).Results().String(), "pruneAction"):
+					planVals = append(planVals, c) // a helper of the package that hands the plan back
 				}
 			}
 		})
